@@ -8,19 +8,19 @@ HERE = os.path.dirname(os.path.dirname(os.path.abspath(__file__)))
 # id -> (category, technique, level text, level note, design section)
 CHECKS = {
     "C01": ("exploration", "runtime monitor: byte comparator with decoder-derived mask + fixpoint, over generated/hand-encoded/mutated inputs",
-            "Every input the parser accepts (assets, built/signed packages, hand-encoded headers with all 10 types, accept-filtered single-bit/byte mutants) is written back and compared byte-for-byte with the input under a mask computed by an independent decoder; re-parse/re-write fixpoint checked. Held on the executions observed, not a proof.",
+            "Every input the parser accepts (assets, built/signed packages, hand-encoded headers with all 10 types, accept-filtered single-bit/byte mutants) is written back and compared byte-for-byte with the input under a mask computed by an independent decoder; re-parse/re-write fixpoint checked. Held on the executions observed, not a proof. Inputs also include bytes removed / inserted at the segment seams, misaligned integer entries, entries behind the region; written bytes are also collected through a plain writer, write_file (among stale neighbour files) and read back through open() on files and pipes.",
             "independent decoder (model/codec.rs) locates reserved bytes and padding correctly; validated on the asset packages"),
     "C02": ("exploration", "runtime monitor: recording Verifying implementation + real pgp verifier on bit-flipped signed packages",
-            "A recording verifier logs every call (data hash, signature bytes) under scripted accept/reject answers for enumerated signature-header shapes; success is judged against the call log and recomputed digests. Library-signed packages are mutated bit by bit and must never verify when the parsed value changed.",
+            "A recording verifier logs every call (data hash, signature bytes) under scripted accept/reject answers for enumerated signature-header shapes; success is judged against the call log and recomputed digests. Library-signed packages are mutated bit by bit and must never verify when the parsed value changed. Also: digests recorded as strict prefixes, size tags that understate the content, payload digest algorithms the library cannot compute, every bit of the compressed stream's envelope, appended bytes, structurally consistent header extensions, payload truncations.",
             "the pgp crate verifies correctly; harness encoder produces the signature-header shapes it claims"),
     "C03": ("exploration", "runtime monitor: independent digest recomputation (iff oracle) over tag subsets and bit flips",
-            "verify_digests() is compared with a verdict recomputed from the input bytes by an independent decoder for every subset of digest tags x right/wrong values, unsupported/unknown payload digest algorithms and every single-bit flip of small packages.",
+            "verify_digests() is compared with a verdict recomputed from the input bytes by an independent decoder for every subset of digest tags x right/wrong values, unsupported/unknown payload digest algorithms and every single-bit flip of small packages. Also: digest values of other lengths, cancelling double errors, nibble-shifted MD5, unsorted signature indexes, other lead signature types, stale digests of the region only, CHAR entries, multi-string payload digests.",
             "sha2/sha1/md-5 crates; independent decoder"),
     "C04": ("exploration", "process-level monitors: panic hook, counting allocator with budget, exit status, watchdog; verifdbg overflow checks; valgrind/ASan/Miri replays in the thorough tier",
             "Hostile inputs (boundary products, every truncation, byte mutations, structure-aware mutation storms, hostile cpio) are parsed and then driven through every read-side operation inside worker processes that turn panics, aborts, oversized allocations and hangs into events. Both release and overflow-checking builds are run. The repository's packages are also read by builds of the library with other cargo feature sets (featprobe/): no panic.",
             "allocation budget 4 MiB + 256 x input; watchdog firing is inconclusive unless confirmed on an idle re-run"),
     "C05": ("exploration", "runtime monitor: independent header decoder vs every accessor",
-            "Well-formed generated headers (each accessor's tags in right/wrong types, counts 0..n, i18n, 32/64-bit sizes, missing triple members, bad dirindexes, non-UTF-8) and the asset packages are decoded independently and compared with every accessor result, including the required error kinds.",
+            "Well-formed generated headers (each accessor's tags in right/wrong types, counts 0..n, i18n, 32/64-bit sizes, missing triple members, bad dirindexes, non-UTF-8) and the asset packages are decoded independently and compared with every accessor result, including the required error kinds. The check runs under a non-C locale environment; stored digests in upper case / of another algorithm's length; repeated dependency triples; empty directory names; device mode words; text with white space at its edges.",
             "accessor->tag table in the harness follows the RPM tag documentation"),
     "C06": ("exploration", "runtime monitor: configuration-as-model after build->write->parse",
             "Random builder configurations are built, written, re-parsed, and every supplied value is compared with the matching accessor.",
@@ -29,7 +29,7 @@ CHECKS = {
             "Built packages over a size ladder, all compressors and levels, standard and stripped cpio (hook), and hand-encoded foreign archives are iterated with files(); every yielded (metadata, content) pair is compared with the configuration or an independent decoding; builds of the library with other cargo feature sets must read back what they build.",
             "large-file mode is forced through the verif-hooks feature; independent decompression uses the codec crates directly"),
     "C08": ("exploration", "runtime monitor: recomputed digests after independent decompression",
-            "Header SHA-256, payload digest, alternate (uncompressed) payload digest and file digests of every built/signed/cleared package are recomputed from the written bytes.",
+            "Header SHA-256, payload digest, alternate (uncompressed) payload digest and file digests of every built/signed/cleared package are recomputed from the written bytes. Also judged against the independently decoded archive (every entry type), with sources rewritten between with_file() and build(), proc/FIFO sources, permission-only modes, duplicate destinations, prefix-sibling names, and the repository's packages after sign/clear.",
             "sha2 crate; codec crates for decompression"),
     "C09": ("exploration", "runtime monitor: independent strict structural validator (rpm hdrblob rules + cpio + rpmlib)",
             "Every package emitted by build/sign/clear is checked by a validator written from rpm's header-loading rules; the validator must first accept rpmbuild's own packages.",
@@ -44,16 +44,16 @@ CHECKS = {
             "Built and hostile hand-encoded packages are extracted inside a jail with canaries; a recursive before/after snapshot outside the target must be identical and the target must match the package; built packages are also extracted by an unprivileged child process (uid 65534, four umasks).",
             "hostile inputs are constructed so that escapes land inside the jail"),
     "C13": ("exploration", "runtime monitor: byte-level rpmvercmp port as reference + total-preorder matrix test (bounded-exhaustive + random)",
-            "Every ordered pair of strings over a 12-symbol alphabet up to a bounded length and millions of random long pairs are compared with a port of rpm's C routine; the full matrix is tested to be a total preorder; EVR/NEVRA rules on enumerated tuples.",
+            "Every ordered pair of strings over a 12-symbol alphabet up to a bounded length and millions of random long pairs are compared with a port of rpm's C routine; the full matrix is tested to be a total preorder; EVR/NEVRA rules on enumerated tuples. Release and verifdbg profiles.",
             "port validated on upstream rpmvercmp.at vectors at every run"),
     "C14": ("fault_enumeration", "scripted io::Write (incl. write_vectored) / io::BufRead fault injection at every byte offset (persistent and transient) + chunking families",
-            "A scripted sink fails at every offset 0..=len, accepts partial buffers and injects Interrupted/zero-length writes; a scripted source chunks and truncates reads at every offset. Output must be the canonical bytes or a prefix; parse results must not depend on chunking. Complete over failure offsets for each package used.",
+            "A scripted sink fails at every offset 0..=len, accepts partial buffers and injects Interrupted/zero-length writes; a scripted source chunks and truncates reads at every offset. Output must be the canonical bytes or a prefix; parse results must not depend on chunking. Complete over failure offsets for each package used. OS level: /dev/full, closed and bursty pipes, open() through /proc/self/fd, real files, a 1 MiB payload and a 34 MiB header; sink failure kinds vary; a sink call budget reports writers that never stop.",
             "canonical bytes = write into a Vec; both release and verifdbg profiles"),
     "C15": ("exploration", "runtime monitor: tuple-as-model round trip (bounded-exhaustive + random) and panic hook",
-            "All component tuples over a small alphabet (names with '-' and '.', empty epoch) and random longer ones are formatted and parsed back; all compression types (also in builds of the library with three other cargo feature sets); no-panic on enumerated and random text.",
+            "All component tuples over a small alphabet (names with '-' and '.', empty epoch) and random longer ones are formatted and parsed back; all compression types (also in builds of the library with three other cargo feature sets); no-panic on enumerated and random text. Release and verifdbg profiles; empty release / arch; == judged in both directions.",
             "real-package component constraints listed in the evidence"),
     "C16": ("exploration", "runtime monitor: independent byte walk vs reported segment offsets",
-            "For assets, built/signed/cleared packages and hand-encoded headers with all store sizes mod 8, the reported offsets are compared with boundaries found by walking the written bytes.",
+            "For assets, built/signed/cleared packages and hand-encoded headers with all store sizes mod 8, the reported offsets are compared with boundaries found by walking the written bytes. Also slack / prefix / unterminated-tail / lead-field / > 256-entry sweeps, plain writers and write_file.",
             "independent decoder"),
     "C17": ("exploration", "panic hook + destination model over bounded-exhaustive destination strings, capability strings and compression levels",
             "All destinations over {/,.,..,a,bc} up to 7 tokens, capability strings, every compression type with levels across and beyond its range, metadata setters with odd strings: build must return Ok/Err, never panic; destinations without a file name must be errors; pairs of destinations; every compression type in builds with other cargo feature sets. Both profiles.",
@@ -62,10 +62,10 @@ CHECKS = {
             "All 65 536 mode words, all 2^32 i32 values and all constructor arguments are converted and compared with direct bit arithmetic (exhaustive).",
             "none beyond the POSIX mode masks"),
     "C19": ("exploration", "runtime monitor: independent grammar acceptor over bounded-exhaustive token strings + random text",
-            "Every string of up to 5 (quick) / 8 (thorough) tokens over the 13-token alphabet and random longer strings are judged by an independent acceptor; verbatim retention, FileOptions::caps error mapping and no-panic in both profiles.",
+            "Every string of up to 5 (quick) / 8 (thorough) tokens over the 13-token alphabet and random longer strings are judged by an independent acceptor; verbatim retention, FileOptions::caps error mapping and no-panic in both profiles. Second alphabet with upper-case flags and VT; name table with near misses, long lists, numbers; every text offered twice in a row; FileCaps::new judged like from_str.",
             "grammar model follows the statement; don't-care classes listed in DESIGN.md"),
     "C20": ("exploration", "runtime monitor: integer time arithmetic oracle over boundary windows, extremes, zones, random instants",
-            "Every second in windows around 0, 2^31, 2^32 with sub-second offsets, extreme values, fixed-offset zones and random instants are converted and compared with integer arithmetic; ordering on sorted samples; file mtimes through the builder.",
+            "Every second in windows around 0, 2^31, 2^32 with sub-second offsets, extreme values, fixed-offset zones and random instants are converted and compared with integer arithmetic; ordering on sorted samples; file mtimes through the builder. Release and verifdbg profiles; leap-second instants; ordering through Timestamp's own Ord.",
             "SystemTime/chrono constructors build the requested instant"),
 }
 
